@@ -32,3 +32,19 @@ Definition spec_unmarshal_at (kind : Z) (f : list Z) (off : Z) : Z * list Z * op
   let s := if off <? zlen f then skipn (Z.to_nat off) f else [] in
   let '(n, ver, err, m, _) := spec_Unmarshal (k_dec kind) EEOF s eof_terminal in
   (n, ver, err, payload_opt m).
+
+(** reading frame after frame off the bytes [s] until the first error or [count] frames *)
+Fixpoint spec_stream_file (count : nat) (kind : Z) (s : list Z) : list (Z * list Z * option perr * list Z) :=
+  match count with
+  | O => []
+  | S k =>
+      let '(n, ver, err, m, lft) := spec_Unmarshal (k_dec kind) EEOF s eof_terminal in
+      let step := (n, ver, err, payload_opt m) in
+      match err with
+      | Some _ => [step]
+      | None => step :: spec_stream_file k kind lft
+      end
+  end.
+
+Definition spec_stream_at (kind : Z) (f : list Z) (off : Z) (count : nat) :=
+  spec_stream_file count kind (if off <? zlen f then skipn (Z.to_nat off) f else []).
